@@ -4,6 +4,8 @@ import numpy as np
 from vmon.gen import atomsgen
 from vmon.oracle import atomsmodel as AM
 
+from vmon.oracle.util import clone
+
 PROPERTY = "C10"
 RULE = ("Generated structures (all four term kinds, with/without tables and extra columns, unique atom ids). For each "
         "structure with N<=Nmax EVERY non-empty subset of atom indices is deleted from a fresh copy, listed sorted, "
@@ -35,7 +37,7 @@ def cases(tier, seed):
 
 
 def _one(a, m0, ids, listing, ctx, st, what):
-    b = a.copy()
+    b = clone(a)
     try:
         if what == "pop":
             if listing is None:
